@@ -205,7 +205,10 @@ def exec : List Sexp → String
         let back := match reflectTo r32 ty w with
           | some b => s!"back={goStr b} eq={boolStr (goStr b == goStr gv)}"
           | none => "back=fault eq=f"
-        s!"{valStr names w} | {ptyStr names pt} | inst={boolStr (inst pt w)} | {back}"
+        let anc := match ancestors ty with
+          | [] => ""
+          | ps => " | anc=" ++ String.join (ps.map fun P => boolStr (inst (typeOf P) w))
+        s!"{valStr names w} | {ptyStr names pt} | inst={boolStr (inst pt w)}{anc} | {back}"
   | _ => "bad-op"
 
 end C18
